@@ -1147,7 +1147,9 @@ def compare(case, obs, rs):
     best = None
     for r in cands:
         st = "ok" if "ok" in r else "err"
-        if (st == "ok") != bool(impl_ok):
+        if st == "err" and obs.get("mpl_refused"):
+            d = []  # matplotlib refused the handed-over arrays before the code reached its own later checks: outcome undetermined
+        elif (st == "ok") != bool(impl_ok):
             d = [f"{case['kind']} plot: impl {obs['status']} ({obs.get('exc')}) vs model {st} {r.get('err', '')}"]
         elif st == "err" or obs.get("res") is None:
             d = []
